@@ -92,6 +92,18 @@ def concretize(k, n, lo=0):
     return lo + n - 1
 
 
+def concretize_bs(k, n, lo=0):
+    """Like concretize, by bisection: log2(n) forks per path instead of n (for selectors with thousands of values)."""
+    hi = lo + n - 1
+    while lo < hi:
+        mid = (lo + hi) // 2
+        if k <= mid:
+            hi = mid
+        else:
+            lo = mid + 1
+    return lo
+
+
 def untraced():
     """Context manager: run concrete (selector-determined) work without CrossHair tracing (50-100x faster)."""
     import contextlib
